@@ -659,10 +659,19 @@ def build(desc, names=None, sysname=None, hook=None):
             if nd['p'].get('cen') is not None:
                 ensure_ports(nd['p']['cen'])
         b.sys.getSimulator()
+    chain = bool(desc.get('base_chain'))    # a gated driver names the nearest gated ancestor's driver as its base
     for gi, g in enumerate(groups):
         if g.get('enable') is not None and gi in b.group_obj:
             ensure_ports(g['enable'])
-            b.group_obj[gi].clockDriver = ClockDriver('gclk' if shared else 'gclk%d' % gi, base=b.sys.clockDriver, enable=b.wire[g['enable']])
+            base = b.sys.clockDriver
+            if chain:
+                anc = g['parent']
+                while anc != -1:
+                    if groups[anc].get('enable') is not None and anc in b.group_obj and b.group_obj[anc].clockDriver is not None:
+                        base = b.group_obj[anc].clockDriver
+                        break
+                    anc = groups[anc]['parent']
+            b.group_obj[gi].clockDriver = ClockDriver('gclk' if shared else 'gclk%d' % gi, base=base, enable=b.wire[g['enable']])
         elif g.get('clk') is not None and gi in b.group_obj:
             ensure_ports(g['clk']['wire'])
             b.group_obj[gi].clockDriver = ClockDriver(g['clk']['name'], 25E6, wire=b.wire[g['clk']['wire']])
